@@ -40,9 +40,11 @@ type caseOp struct {
 	Edge   string            `json:"edge,omitempty"`
 	Expect []string          `json:"expect,omitempty"` // declared schema (valid programs)
 	Calls  []CallIface       `json:"calls,omitempty"`  // declared interfaces (valid programs): call-level validation
-	ID     int               `json:"id"`
-	NoTool bool              `json:"no_tool,omitempty"`      // lexer/parser streams only
-	Cycle  bool              `json:"module_cycle,omitempty"` // run tars2go with -module-cycle (packages at <file>/<module>)
+	// declared default values: "<package>.<Struct>" -> `Member="value";…` for the scalar members
+	Defaults map[string]string `json:"defaults,omitempty"`
+	ID       int               `json:"id"`
+	NoTool   bool              `json:"no_tool,omitempty"`      // lexer/parser streams only
+	Cycle    bool              `json:"module_cycle,omitempty"` // run tars2go with -module-cycle (packages at <file>/<module>)
 }
 
 func (c *caseOp) mainBytes() []byte {
@@ -579,6 +581,7 @@ func progCase(p *Prog, rng *rand.Rand, plain bool) *caseOp {
 	}
 	sort.Strings(c.Expect)
 	c.Calls = p.CallIfaces()
+	c.Defaults = p.DeclaredDefaults()
 	for k, v := range p.Feats {
 		featTotal[k] += v
 	}
